@@ -14,20 +14,20 @@ theorem mkTok_tt (tt l lit pos) : (mkTok tt l lit pos).tt = tt := rfl
 
 /-- what a step consumed: `used ++ rest = input`, and a token's lexeme is exactly `used` -/
 def Consumes (pos : Nat) (inp : Str) (st : Step) : Prop :=
-  ∃ used, inp = used ++ st.rest ∧ used ≠ [] ∧
+  ∃ used, inp = used ++ st.rest ∧ used ≠ [] ∧ st.bytes = ulen used ∧
     ∀ t r, st = .tok t r → t.lexeme = used ∧ t.off = pos ∧ t.len = ulen used
 
 theorem consumes_tok (pos : Nat) (inp used rest : Str) (tt lit) (h : inp = used ++ rest) (hne : used ≠ []) :
     Consumes pos inp (.tok (mkTok tt used lit pos) rest) :=
-  ⟨used, h, hne, by intro t r e; cases e; exact ⟨rfl, rfl, rfl⟩⟩
+  ⟨used, h, hne, rfl, by intro t r e; cases e; exact ⟨rfl, rfl, rfl⟩⟩
 
-theorem consumes_skip (pos : Nat) (inp used rest : Str) (h : inp = used ++ rest) (hne : used ≠ []) :
-    Consumes pos inp (.skip rest) :=
-  ⟨used, h, hne, by intro t r e; cases e⟩
+theorem consumes_skip (pos : Nat) (inp used rest : Str) (b : Nat) (h : inp = used ++ rest) (hne : used ≠ [])
+    (hb : b = ulen used) : Consumes pos inp (.skip b rest) :=
+  ⟨used, h, hne, hb, by intro t r e; cases e⟩
 
-theorem consumes_err (pos : Nat) (inp used rest : Str) (e) (h : inp = used ++ rest) (hne : used ≠ []) :
-    Consumes pos inp (.err e rest) :=
-  ⟨used, h, hne, by intro t r e; cases e⟩
+theorem consumes_err (pos : Nat) (inp used rest : Str) (e) (b : Nat) (h : inp = used ++ rest) (hne : used ≠ [])
+    (hb : b = ulen used) : Consumes pos inp (.err e b rest) :=
+  ⟨used, h, hne, hb, by intro t r e; cases e⟩
 
 theorem scanNumber_consumes (pos c cs) : Consumes pos (c :: cs) (scanNumber pos c cs) := by
   unfold scanNumber
@@ -70,26 +70,27 @@ theorem scanOne_consumes (cfg prev pos c cs) : Consumes pos (c :: cs) (scanOne c
       exact consumes_tok _ _ (c :: consumed) _ _ _ (by simp [hs]) (by simp)
     · rename_i consumed rest heq
       rw [heq] at hs; simp only [StrRes.consumed, StrRes.rest] at hs
-      exact consumes_err _ _ (c :: consumed) _ _ (by simp [hs]) (by simp)
+      exact consumes_err _ _ (c :: consumed) _ _ _ (by simp [hs]) (by simp) (by simp)
     · rename_i consumed heq
       rw [heq] at hs; simp only [StrRes.consumed, StrRes.rest] at hs
-      exact consumes_err _ _ (c :: consumed) _ _ (by simp at hs; simp [hs]) (by simp)
+      exact consumes_err _ _ (c :: consumed) _ _ _ (by simp at hs; simp [hs]) (by simp) (by simp)
   case slash =>
     simp only []
     split
     · rename_i r
       have := spanWhile_append (fun d => d != '\n') r
-      exact consumes_skip _ _ (c :: '/' :: (spanWhile (fun d => d != '\n') r).1) _ (by simp [this]) (by simp)
+      exact consumes_skip _ _ (c :: '/' :: (spanWhile (fun d => d != '\n') r).1) _ _ (by simp [this]) (by simp)
+        (by simp; decide)
     · exact consumes_tok _ _ [c] _ _ _ (by simp) (by simp)
   case single tt => exact consumes_tok _ _ [c] _ _ _ (by simp) (by simp)
   case bang =>
     simp only []; split
     · exact consumes_tok _ _ [c, '='] _ _ _ (by simp) (by simp)
-    · exact consumes_err _ _ [c] _ _ (by simp) (by simp)
+    · exact consumes_err _ _ [c] _ _ _ (by simp) (by simp) (by simp)
   case eq =>
     simp only []; split
     · exact consumes_tok _ _ [c, '='] _ _ _ (by simp) (by simp)
-    · exact consumes_err _ _ [c] _ _ (by simp) (by simp)
+    · exact consumes_err _ _ [c] _ _ _ (by simp) (by simp) (by simp)
   case lt =>
     simp only []; split
     · exact consumes_tok _ _ [c, '='] _ _ _ (by simp) (by simp)
@@ -101,15 +102,15 @@ theorem scanOne_consumes (cfg prev pos c cs) : Consumes pos (c :: cs) (scanOne c
     · exact consumes_tok _ _ [c] _ _ _ (by simp) (by simp)
   case backslash =>
     simp only []; split
-    · exact consumes_skip _ _ [c, '\n'] _ (by simp) (by simp)
-    · exact consumes_err _ _ [c] _ _ (by simp) (by simp)
-  case blank => exact consumes_skip _ _ [c] _ (by simp) (by simp)
+    · exact consumes_skip _ _ [c, '\n'] _ _ (by simp) (by simp) (by simp; decide)
+    · exact consumes_err _ _ [c] _ _ _ (by simp) (by simp) (by simp)
+  case blank => exact consumes_skip _ _ [c] _ _ (by simp) (by simp) (by simp)
   case newline =>
     simp only []; split
     · split
       · exact consumes_tok _ _ [c] _ _ _ (by simp) (by simp)
-      · exact consumes_skip _ _ [c] _ (by simp) (by simp)
-    · exact consumes_skip _ _ [c] _ (by simp) (by simp)
-  case other => exact consumes_err _ _ [c] _ _ (by simp) (by simp)
+      · exact consumes_skip _ _ [c] _ _ (by simp) (by simp) (by simp)
+    · exact consumes_skip _ _ [c] _ _ (by simp) (by simp) (by simp)
+  case other => exact consumes_err _ _ [c] _ _ _ (by simp) (by simp) (by simp)
 
 end Aplang
